@@ -60,8 +60,9 @@ def c09(ctx):
     from .rules import loops
     loops.run(ctx, entries)
     # the justifications of CodePage::encoding()'s unreachable!() arm and of the encode loop's progress rest on these rules
-    from .rules import codepage
+    from .rules import codepage, gates
     codepage.run(ctx)
+    gates.join_shape(ctx)
     ctx.assume(EXT_ASSUME)
     return ctx.finish(explanation="panic-edge inventory over MIR of msi and msi_ffi, reachability from every exported function; "
                       "each site discharged by a guard rule, justified, or reported; sized allocations bounded (ALLOC-BOUND); every loop cycle consumes from a finite "
@@ -247,6 +248,8 @@ def c01(ctx):
     schema.bits_disjoint(ctx)
     schema.table_clsid(ctx)
     streams.b64_tables(ctx)
+    from .rules import codepage
+    codepage.flow_rules(ctx)
     return ctx.finish(explanation="structural necessary conditions of persistence: dirty-flag discipline, finisher arming, the three close paths, the "
                       "finisher's completeness and ordering, flush-before-drop, reader/writer symmetry of the cell and pool codecs, and the "
                       "reader's long-string escape never being emitted for a live entry. Equality of reopened values is not decided")
@@ -281,6 +284,7 @@ def c06(ctx):
     schema.sep1(ctx)
     schema.table_cat(ctx)
     schema.builder_pass(ctx)
+    schema.gate_opt(ctx)
     from .rules import flush, dml
     flush.dirty1(ctx)
     dml.limit_w(ctx)
@@ -304,6 +308,8 @@ def c02(ctx):
     propset.run(ctx)
     streams.b64_tables(ctx)
     flush.dirty1(ctx)
+    from .rules import dml
+    dml.limits(ctx)
     return ctx.finish(explanation="reader-side structure: cell widths, offset-binary constants, column-major nesting, reference-width threading, pool header bit and long-string escape, "
                       "type-word masks and the 1-byte integer quirk, optional catalog streams, repeated-key rejection. That decoded values equal a foreign generator's is not decided")
 
@@ -339,8 +345,9 @@ def c05(ctx):
     dml.key_set(ctx)
     dml.del_only_retain(ctx)
     dml.pairs(ctx)
-    from .rules import flush
+    from .rules import flush, codec
     flush.dirty1(ctx)
+    codec.pool_codec(ctx)
     schema.ins1(ctx, fns=("msi::internal::query::Insert::exec",), floor=3)
     return ctx.finish(explanation="necessary conditions for unique, ordered keys and valid cells: key awareness of every function that creates cells and rewrites rows, "
                       "duplicate tests before the keyed inserts, validation before creation, key-ordered emission. The invariant over all histories is not decided")
@@ -395,6 +402,7 @@ def c03(ctx):
     dml.ord1(ctx)
     dml.key_set(ctx)
     dml.info_key(ctx)
+    dml.limits(ctx)
     from .rules import flush
     flush.dirty1(ctx)
     flush.dirty2(ctx)
